@@ -194,5 +194,8 @@ func (p *Program) inRapid(fn *ssa.Function) bool {
 	for fn.Parent() != nil {
 		fn = fn.Parent()
 	}
+	if fn.Pkg == nil && fn.Object() != nil {
+		return fn.Object().Pkg() == p.Types // synthetic wrappers (bound methods, thunks)
+	}
 	return fn.Pkg == p.SPkg
 }
